@@ -57,6 +57,16 @@ Theorem C15_static_history_executes_nothing :
 Proof. exact static_history_executes_nothing. Qed.
 Print Assumptions C15_static_history_executes_nothing.
 
+(* The process history is an input: whatever is already in sys.modules when the entry point is called (the analysed package
+   imported before, entirely, partially, or its top level only), a static call runs no body and sys.modules stays
+   exactly what it was. *)
+Theorem C15_static_whatever_is_imported :
+  forall syspath imported store phases r s',
+    run_phases false false store phases (init_state_with syspath imported) = (r, s') ->
+    executions s' = [] /\ inspections s' = [] /\ mods s' = imported.
+Proof. exact static_whatever_is_imported. Qed.
+Print Assumptions C15_static_whatever_is_imported.
+
 (* A static load ends in success, LoadingError, ModuleNotFoundError, or with what the finder itself raised for one of
    the packages asked for, at any nesting depth (FileNotFoundError for a missing Path, UnicodeDecodeError for a
    top-level __init__.py that is not UTF-8). *)
